@@ -4,8 +4,8 @@ from harness import gen_models as M
 
 class C05(Prop):
     id = 'C05'
-    theorems = ['C05.roundtrip', 'C05.unknown_skipped', 'C05.fqn_is_path_plus_name']
-    proof_modules = ['DznProofs.C05']
+    theorems = ['C05.roundtrip', 'C05.unknown_skipped', 'C05.fqn_is_path_plus_name', 'C05.unknown_object_skipped', 'C05.nondict_skipped', 'C05.skipped_element_irrelevant']
+    proof_modules = ['DznProofs.C05', 'DznProofs.C05Skip']
     level_rule = ('random Dezyne source trees (namespace depth<=6 incl. multi-identifier and re-opened '
                   'namespaces, every declaration kind, nested enums/subints, empty containers, names '
                   'reused across scopes, unknown classes and non-dict elements) encoded by the harness '
